@@ -3,7 +3,7 @@
 set -u
 d=/verif/seeded/$1
 git -C /repo status --short | grep -v '^??' | grep . && { echo "/repo not clean"; exit 3; }
-git -C /repo apply "$d/patch.diff" || exit 3
+p="$d/patch.diff"; [ -f "$d/patch_rebased.diff" ] && p="$d/patch_rebased.diff"; git -C /repo apply "$p" || exit 3
 cd /verif && ./check "$2" --tier "${3:-quick}" > /tmp/try_$1_$2.log 2>&1
 rc=$?
 git -C /repo checkout -- .
